@@ -9,6 +9,9 @@ import (
 	"os"
 	"testing"
 
+	chunk "github.com/ipfs/boxo/chunker"
+	"github.com/ipfs/boxo/ipld/unixfs/importer/balanced"
+	"github.com/ipfs/boxo/ipld/unixfs/importer/helpers"
 	"github.com/ipfs/go-cid"
 	"github.com/ipld/go-ipld-prime/datamodel"
 
@@ -225,5 +228,103 @@ func TestC07_P_PositionedSources(t *testing.T) {
 		}
 		ev.Case(fmt.Sprintf("%s %q pos=%s/%s", src, chunker, bucket(pos), bucket(n)), src != "plain" && pos > 0, "source:"+src, "chunker:"+chunker)
 		ev.Sample(map[string]any{"source": src, "len": n, "pos": pos, "chunker": chunker})
+	})
+}
+
+// failingSource delivers data in the drawn fragment sizes and fails (non-EOF) once failAfter bytes have been delivered:
+// either together with the last bytes of that read (n > 0, err) or on the call after them.
+type failingSource struct {
+	data      []byte
+	frags     []int
+	failAfter int
+	together  bool
+	pos, call int
+	err       error
+}
+
+func (f *failingSource) Read(p []byte) (int, error) {
+	if f.pos >= f.failAfter {
+		return 0, f.err
+	}
+	k := f.frags[f.call%len(f.frags)]
+	f.call++
+	if k > len(p) {
+		k = len(p)
+	}
+	if f.pos+k > f.failAfter {
+		k = f.failAfter - f.pos
+	}
+	copy(p, f.data[f.pos:f.pos+k])
+	f.pos += k
+	if f.pos >= f.failAfter && f.together {
+		return k, f.err
+	}
+	return k, nil
+}
+
+const c07FailRule = "case = (content, chunker, width, a source reader that fails with a non-EOF error after delivering a drawn number of bytes - aimed at chunk and level boundaries incl. exactly at the end - in drawn fragment sizes, the error arriving with the last bytes or on the next call, error value from the fault palette incl. values wrapping io.EOF); " +
+	"oracle = differential: the reference importer fed the same failing source reports an error, so the builder must report one too and return no link (a link would name a file the source never delivered); every case non-trivial; distinct by (chunker class, w, position class, together?)"
+
+// TestC07_P_FailingSource extends the content domain of C07 to sources that break: builder and reference must agree that
+// there is no file.
+func TestC07_P_FailingSource(t *testing.T) {
+	ev := newEvid(t, c07FailRule)
+	rapid.Check(t, func(t *rapid.T) {
+		w := genWidth(t)
+		ck := genChunker(t)
+		data := genContent(t, ck, w, 2048)
+		failAfter := rapid.IntRange(0, len(data)).Draw(t, "failAfter")
+		posClass := "interior"
+		if ck.CS > 0 && rapid.Bool().Draw(t, "onChunkBoundary") {
+			chunks := (len(data) + ck.CS - 1) / ck.CS
+			c := genChunkCount(t, w, chunks+1)
+			if c > chunks {
+				c = chunks
+			}
+			failAfter = c * ck.CS
+			if failAfter > len(data) {
+				failAfter = len(data)
+			}
+			posClass = "chunk-boundary"
+		}
+		if failAfter == len(data) {
+			posClass = "at-end"
+		}
+		kind := genFaultKind(t)
+		mk := func() *failingSource {
+			return &failingSource{data: data, failAfter: failAfter, together: false, err: &ioFault{what: "source reader", inner: faultKinds[kind].Inner}}
+		}
+		frags := rapid.SliceOfN(rapid.SampledFrom([]int{1, 2, 3, 7, 64, 1000, 1 << 20}), 1, 4).Draw(t, "frags")
+		together := rapid.Bool().Draw(t, "together")
+		src, refSrc := mk(), mk()
+		src.frags, refSrc.frags = frags, frags
+		src.together, refSrc.together = together, together
+		// reference
+		var refErr error
+		func() {
+			spl, err := chunk.FromString(refSrc, ck.Name)
+			if err != nil {
+				t.Fatalf("harness: chunker %q: %v", ck.Name, err)
+			}
+			params := helpers.DagBuilderParams{Maxlinks: w, RawLeaves: true, Dagserv: storeDAG{NewStore()}, CidBuilder: v1Prefix()}
+			db, err := params.New(spl)
+			if err != nil {
+				t.Fatal(err)
+			}
+			_, refErr = balanced.Layout(db)
+		}()
+		var got cid.Cid
+		var err error
+		must(t, "BuildUnixFSFile", func() { got, _, err = buildFileR(NewStore().LinkSystem(), src, ck.Name, w) })
+		if refErr == nil {
+			// (not observed: the reference reads to the end of its source) - nothing to compare against
+			ev.Case("reference-did-not-fail", false, "reference-did-not-fail")
+			return
+		}
+		if err == nil || got.Defined() {
+			t.Fatalf("C07: source reader failing (%s, with the last bytes: %v) after %d of %d bytes, chunker %q, w=%d: the reference importer reports %q, the builder returned link %s, err %v", faultKinds[kind].Name, together, failAfter, len(data), ck.Name, w, refErr, got, err)
+		}
+		ev.Case(fmt.Sprintf("%s w=%d %s together=%v %s", ck.Class, w, posClass, together, faultKinds[kind].Name), true, "chunker:"+ck.Class, "pos:"+posClass, "fault:"+faultKinds[kind].Name)
+		ev.Sample(map[string]any{"len": len(data), "chunker": ck.Name, "w": w, "fail_after": failAfter, "together": together, "fault": faultKinds[kind].Name})
 	})
 }
